@@ -175,6 +175,10 @@ def spec_builtin(I, st, name, args, kwargs, node):
         from . import asyncio_model
         which = node.args[0].value if node.args else "time"
         return asyncio_model.clock_value(I, st, which, old=st.in_old and st.old_heap is None)
+    if name == "rank":
+        d, k = args
+        kd = I.kd_of(d)
+        return mkint(z3.Select(I.rank_of(st, d), I.key_term(st, kd, k)))
     if name == "ufun":
         # ufun('name', 'RetType', args...): an uninterpreted function of the *values* of its arguments (a dict argument
         # contributes its key set and its value map, so equal contents give equal results)
